@@ -847,6 +847,15 @@ func taintSelfTest() []string {
 	check("words-lines", strings.Join(words[1:4], "\n"), true)
 	check("two-words", "draw silly", false)
 	check("innocent", "invalid passphrase for master private key; account 1 not found; failed to get 7: 64 35 88 at height 120, wallet ms1qq0123456789", false)
+	for _, t := range []string{"invalid passphrase for master private key", "failed to store encrypted crypto private key: unable to open account index",
+		"not allowed to change private passphrase when unlocked", "new public passphrase same as private passphrase"} {
+		if mnemonicLikeRun([]byte(t)) >= wordRunThreshold {
+			misses = append(misses, "word-run-false-alarm: "+t)
+		}
+	}
+	if mnemonicLikeRun([]byte("create failed for {abandon ability able about above absent absorb abstract}: closed")) < 8 {
+		misses = append(misses, "word-run-missed")
+	}
 	return misses
 }
 
